@@ -1,5 +1,5 @@
 (* C02 — an architecture instance is exactly the derivation closure of the choices made. *)
-From DSG Require Import Base Dsg Sel SelP.
+From DSG Require Import Base Dsg Sel SelP TotalP.
 
 (* the executable closure computes exactly the declarative derivation closure *)
 Theorem C02_closure_is_reach : forall g s W, closure g s = Some W -> forall n, In n W <-> Reach g s n.
@@ -69,4 +69,21 @@ Proof.
   - reflexivity.
   - simpl. intros [H|[]]. discriminate.
   - vm_compute; tauto.
+Qed.
+
+(* the fuelled closure and enumeration never run out of fuel on a graph whose start nodes and edge targets are declared
+   nodes, so the statements above are about every such graph and every assignment *)
+Theorem C02_closure_total : forall g s, wf_nodes g -> exists W, closure g s = Some W.
+Proof. exact closure_total. Qed.
+Print Assumptions C02_closure_total.
+
+Theorem C02_enumeration_total : forall g, wf_nodes g -> exists l, enum_adm g = Some l.
+Proof. exact enum_adm_total. Qed.
+Print Assumptions C02_enumeration_total.
+
+Example C02_ex_wf : wf_nodes ex_g.
+Proof.
+  split.
+  - intros n Hn. vm_compute in Hn. vm_compute. tauto.
+  - intros e He. vm_compute in He. repeat (destruct He as [<-|He]; [vm_compute; tauto|]). contradiction.
 Qed.
